@@ -14,6 +14,8 @@ symbols c (amplitude: rho 1, sigma 2, tau 1, grad 1), N (nspin), e (energy densi
            (2 rho, 4 sigma, 2 tau), term by term (literal 2**p typed as a symbol; two runs compared per '+')
  sep2      KernelEvalBase2._get_baseline (SEP): each ingredient of a spin channel is doubled as 2**deg and the
            outputs are rescaled by 1/2 * 2**deg
+ spin-mirror  get_sigma / get_dsigma (GGA correlation baseline): values stored into spin slot b are the a<->b
+           mirror of those stored into slot a (sign flip for odd functions of zeta), the ab slot is invariant
  sites     every arithmetic use of nspin in the anchored files is enumerated; each must lie in a function
            covered by one of the typed analyses above (floor on the count, ceiling on uncovered sites)
  ab-sym    nr_uks*: statements mentioning one spin channel have a sibling with the channels renamed
@@ -270,8 +272,10 @@ def rule_nldf(chk, cx):
                     "NLDF rows are linear (l=1 dots quadratic) in the per-spin density")
         vfeat = rows(0, {k: Q(E1 - v.deg) for k, v in feat.rows.items() if comp(v, "c") is not None})
         vrho = rows(0, {i: q(e=1, c=-1) for i in range(nrow)})
+        vf_typed = q(e=1, c=-1)
+        vf_typed.homog = True      # every row of vf is a derivative w.r.t. a per-spin convolution integral
         bw = s.call(plan, "eval_vxc_full", [vfeat, vrho, q(c=1), rho_data],
-                    {"spin": num(0), "vf": q(e=1, c=-1), "p_i_qg": lst(q(), q())})
+                    {"spin": num(0), "vf": vf_typed, "p_i_qg": lst(q(), q())})
         cx.flush(bw, where + ".eval_vxc_full", "pair")
         ln = fline(s, PL, "NLDFAuxiliaryPlan.eval_vxc_full")
         cx.want("pair", bw, where + ".eval_vxc_full", bw.value, "N", 0, "vf (derivative w.r.t. the convolutions)", PL,
@@ -774,12 +778,54 @@ def rule_sep2(chk, cx):
     chk.floor("sep2", 7, "3 doubled ingredients + 4 rescaled outputs")
 
 
+SPIN_RESOLVED = {
+    # function -> kinds of its positional parameters ("spin": leading axis = 2 channels; "sig3": aa, ab, bb)
+    "get_sigma": {0: "spin"},
+    "get_dsigma": {0: "spin", 1: "spin", 2: "spin", 3: "sig3"},
+}
+
+
+def rule_spin_mirror(chk, cx):
+    """spin-resolved baseline helpers: after inlining locals, the value stored into spin slot 1 (bb) must be
+    the a<->b mirror image of the value stored into slot 0 (aa) -- odd functions of zeta flip sign -- the ab
+    slot must receive an invariant value, and whole-array stores a covariant one (sa/parity.py)"""
+    from sa import parity
+    mod = cx.s.prog.module(BL)
+    n_ok = 0
+    for fname, kinds in SPIN_RESOLVED.items():
+        fdef = mod.func(fname)
+        if len(fdef.args.args) <= max(kinds):
+            raise core.AnalysisError("%s: signature changed (%d parameters)" % (fname, len(fdef.args.args)))
+        rep = parity.analyse(fdef, kinds)
+        seen = set()
+        got = 0
+        for status, msg, node in rep.pairs():
+            key = (status, core.norm_text(pf.src(node)))
+            if key in seen:
+                continue
+            seen.add(key)
+            got += 1
+            if status == "ok":
+                n_ok += 1
+                chk.ok("spin-mirror", "%s: %s" % (fname, msg))
+            elif status == "bad":
+                chk.violation("spin-mirror", BL, fname, pf.src(node), node.lineno,
+                              "%s; exchanging the two spin channels would not exchange the two potentials" % msg)
+            else:
+                chk.count("spin-mirror statements not classified")
+        if not got:
+            raise core.AnalysisError("%s: no spin-slot stores found" % fname)
+    chk.floor("spin-mirror", 5, "sigma[0]/sigma[2]/sigma[1] in get_sigma, vX0T[0,0]/vX0T[1,0] and two whole-array stores "
+                                "in get_dsigma")
+
+
 # ----------------------------------------------------------------------------------------------------------
 def _analyse_own(chk):
     chk.rule("pair", "backward code multiplies vfeat by the nspin power the forward code applied to the feature row")
     chk.rule("amp", "nspin exponent of a quantity equals its density-amplitude degree")
     chk.rule("expnt", "exponent functions: nspin=2 branch == nspin=1 branch at the spin-doubled density, term by term")
     chk.rule("sep2", "SEP libxc baseline: ingredients doubled as 2**deg, outputs rescaled by 2**(deg-1)")
+    chk.rule("spin-mirror", "baseline helpers: the slot-b statements are the a<->b mirror of the slot-a statements")
     chk.rule("sites", "every arithmetic use of nspin is enumerated and lies in a typed analysis")
     chk.rule("ab-sym", "nr_uks*: statements on one spin channel have an a<->b sibling")
     cx = Ctx(chk)
@@ -791,6 +837,7 @@ def _analyse_own(chk):
     chk.guard(rule_rhocut, cx)
     chk.guard(rule_exponent, cx)
     chk.guard(rule_sep2, cx)
+    chk.guard(rule_spin_mirror, cx)
     chk.guard(rule_sites, cx)
     chk.guard(rule_ab, cx)
     chk.count("equal-degree obligations decided inside formulas", cx.s.eng.checks)
@@ -814,6 +861,8 @@ def _analyse_own(chk):
 
 def analyse(chk):
     _analyse_own(chk)
+    chk.guard(lambda c_: core.include_findings(c_, 'C09', files=['ciderpress/dft/plans.py', 'ciderpress/dft/lcao_nldf_generator.py', 'ciderpress/dft/lcao_interpolation.py'], rules=['cache-alias'],
+                                               why='a per-spin cache that aliases a reusable buffer lets one spin channel overwrite the other (spin symmetry)'))
     chk.guard(lambda c_: core.include_findings(c_, 'C10', files=['ciderpress/lib/mod_cider/model_utils.c'], rules=None,
                                                why='a data race in the spin kernels breaks the spin relations'))
 
@@ -860,6 +909,14 @@ def mutants(tree):
                expect="sep2"),
         Mutant("SEP baseline vsigma not rescaled", XE2, "sep_res[2][2 * s] = 2 * res[2]", "sep_res[2][2 * s] = res[2]",
                expect="sep2"),
+        Mutant("dzeta/drho_b uses rho[1]", BL, "vX0T[1, 0] -= vzfac * 2 * rho[0] / (rho[0] + rho[1]) ** 2",
+               "vX0T[1, 0] -= vzfac * 2 * rho[1] / (rho[0] + rho[1]) ** 2", expect="spin-mirror"),
+        Mutant("dzeta/drho_b loses its sign", BL, "vX0T[1, 0] -= vzfac * 2 * rho[0] / (rho[0] + rho[1]) ** 2",
+               "vX0T[1, 0] += vzfac * 2 * rho[0] / (rho[0] + rho[1]) ** 2", expect="spin-mirror"),
+        Mutant("sigma_bb filled from channel a", BL, "        sigma[2] = sigma_s[1]\n", "        sigma[2] = sigma_s[0]\n",
+               expect="spin-mirror"),
+        Mutant("cross gradient weighted by channel a only", BL, "sigma[1] = (sigma_s[0] + sigma_s[1]) * zfac",
+               "sigma[1] = 2 * sigma_s[0] * zfac", expect="spin-mirror"),
         Mutant("nelec of channel b accumulates den_a", NI, "nelec[1, i] += den_b.sum()", "nelec[1, i] += den_a.sum()",
                expect="ab-sym"),
         Mutant("NLDF eval_rho_full nspin factor removed (forward only)", PL, "        feat[:] *= self.nspin\n        # dfeat",
